@@ -134,10 +134,13 @@ def neighbours(c, rng):
 TECHNIQUE = ('Coq proof by complete enumeration lifted with forallb_forall (bound stated in the theorem) over a step-machine '
              'model of the iterative Tarjan + correspondence check against DiGraph with the C20 predicate evaluated in Coq '
              "on the implementation's components")
-LEVEL_TEXT = ('C20_sccs_correct_le3: for every digraph on <= 3 nodes, every root order and every adjacency order, both modes: '
-              'no error, within fuel, each SCC exactly once, partition, default mode = cyclic classes (kernel-checked). '
-              'The model (construction API incl. unknown nodes/KeyError, set semantics, Tarjan machine) is compared with the '
-              'live DiGraph on every run (exhaustive <= 3 nodes quick / <= 4 thorough, random to 30 nodes), and c20_ok '
-              '(written from mutual reachability, independent of the algorithm) is evaluated on what the implementation returned.')
-LEVEL_NOTE = ('Unbounded correctness of Tarjan is not yet proved (bounded theorem + correspondence + predicate on impl output). '
+LEVEL_TEXT = ('C20_sccs_correct (Tarjan.v): UNBOUNDED — for every digraph (any size, every root order, every adjacency order), '
+              'both modes: the iterative machine terminates within its fuel without error, components are disjoint, each is '
+              'exactly a mutual-reachability class, coverage = all nodes (trivial) / nodes on a cycle (default); proved by a '
+              'machine invariant over the explicit DFS frames.  C20_every_built_graph: every graph reachable through '
+              'add_nodes/add_neighbors meets the hypotheses.  C20_executable_statement_is_the_spec: the boolean c20_ok evaluated '
+              'on the implementation output is equivalent to the relational statement.  The model (construction API incl. unknown '
+              'nodes/KeyError, set semantics, Tarjan machine) is compared with the live DiGraph on every run (exhaustive <= 3 nodes '
+              'quick / <= 4 thorough, random to 30 nodes).')
+LEVEL_NOTE = ('The bounded theorem (<= 3 nodes, by evaluation) is kept as a cross-check. '
               'Set iteration order is abstracted: outputs compared as sets of sets.')
